@@ -219,9 +219,14 @@ func (s *ServerDnsListener) onMessage(m *dns.Msg, remoteAddr net.Addr) (*dns.Msg
 			if err != nil {
 				return nil, err
 			}
-			user, userErr = s.validateAndGetUser(userId, remoteAddr)
-			if user != nil {
-				serializer = user.Serializer
+			if c.NeedsUserId {
+				// Commands without an identifier (version handshake, query-type and codec probes of a client that
+				// has no session yet) decode as identifier 0: they must not be judged - nor answered with the
+				// parameters of - whichever session, live or retired, happens to hold slot 0.
+				user, userErr = s.validateAndGetUser(userId, remoteAddr)
+				if user != nil {
+					serializer = user.Serializer
+				}
 			}
 			cmd = &c
 			break
